@@ -45,9 +45,6 @@ Proof.
     constructor; [exact Hx | now apply IH].
 Qed.
 
-Definition seq_items (v : val) : option (list val) :=
-  match v with VList l | VTuple l | VSet l | VFrozen l => Some l | _ => None end.
-
 Theorem items_dumped_recursively hfun V E cfg sm ia ign v l out :
   seq_items v = Some l -> handler_for cfg (type_of v) = None ->
   jc_dump hfun V E cfg sm ia ign v = Ok out ->
@@ -278,4 +275,114 @@ Theorem ignore_class_has_configured_name E c ia d :
 Proof.
   intros H. apply mro_find_pred in H. unfold ign_pred in H. destruct (c_ign d) as [[n x]|]; [|discriminate H].
   apply String.eqb_eq in H. subst n. eauto.
+Qed.
+
+(** ** Every depth *)
+
+Lemma dump_fields_filter E cfg (f : val -> res val) ignl fields :
+  dump_fields E cfg f ignl fields =
+  mapM (fun kx => do y <- f (snd kx); Ok (VStr (fst kx), y)) (filter (field_kept E cfg ignl) fields).
+Proof.
+  induction fields as [|[k x] r IH]; [reflexivity|].
+  cbn [dump_fields filter fst snd]. fold (dump_fields E cfg f ignl). unfold field_kept at 1, name_ignored. cbn [fst snd].
+  destruct (existsb (py_eq (VStr k)) ignl); cbn [negb andb]; [exact IH|].
+  destruct (known_type E cfg x && negb (existsb (py_eq x) ignl)); [|exact IH].
+  cbn [mapM]. fold (mapM (fun kx : str * val => do y <- f (snd kx); Ok (VStr (fst kx), y))).
+  rewrite IH. cbn [fst snd]. destruct (f x) as [a|]; [|reflexivity]. cbn [bind].
+  destruct (mapM (fun kx : str * val => do y <- f (snd kx); Ok (VStr (fst kx), y)) (filter (field_kept E cfg ignl) r)); reflexivity.
+Qed.
+
+Lemma Forall2_In_l {A B} (R : A -> B -> Prop) l l' x : Forall2 R l l' -> In x l -> exists y, In y l' /\ R x y.
+Proof.
+  intros H. induction H as [|a b r r' Hab _ IH]; intros Hin; [contradiction|].
+  destruct Hin as [->|Hin]; [exists b; split; [now left | exact Hab]|].
+  destruct (IH Hin) as [y [Hy HR]]. exists y. split; [now right | exact HR].
+Qed.
+
+Lemma flookup_of_In n o sds : nodup_str (map fst sds) = true -> In (n, o) sds -> flookup n sds = Some o.
+Proof.
+  induction sds as [|[k y] r IH]; intros Hnd Hin; [contradiction|]. cbn [map fst nodup_str flookup] in *.
+  apply andb_true_iff in Hnd as [H1 H2]. destruct Hin as [Heq|Hin].
+  - injection Heq as -> ->. now rewrite String.eqb_refl.
+  - destruct (String.eqb n k) eqn:Ek; [|auto]. apply String.eqb_eq in Ek. subst k.
+    apply negb_true_iff in H1. exfalso. unfold mem_str in H1.
+    assert (Hex : existsb (String.eqb n) (map fst r) = true).
+    { apply existsb_exists. exists n. split; [|apply String.eqb_refl]. apply in_map_iff. exists (n, o). auto. }
+    rewrite Hex in H1. discriminate H1.
+Qed.
+
+Lemma In_of_assoc k m v : assoc k m = Some v -> exists k', In (k', v) m.
+Proof.
+  induction m as [|[k0 v0] r IH]; [discriminate|]. cbn [assoc]. destruct (py_eq k k0).
+  - intros H. injection H as ->. exists k0. now left.
+  - intros H. destruct (IH H) as [k' Hk]. exists k'. now right.
+Qed.
+
+(** a field that passes the filter is dumped by the same function and its dumped form is the value
+    of the key of that name *)
+Lemma field_emitted hfun V E cfg sm ia ign c fields d ignl n x out :
+  handler_for cfg (TClass c) = None -> find_class (e_ctab E) c = Some d ->
+  flookup sm fields = None -> mro_find (e_ctab E) c (ser_pred sm) = None ->
+  ignore_list E ia ign c fields = Ok ignl ->
+  nodup_str (map fst fields) = true -> n <> "__jsonclass__" ->
+  In (n, x) fields -> field_kept E cfg ignl (n, x) = true ->
+  jc_dump hfun V E cfg sm ia ign (VInst c fields) = Ok out ->
+  exists o m, jc_dump hfun V E cfg sm ia ign x = Ok o /\ out = VDict m /\ dget m n = Some o.
+Proof.
+  intros Hh Hd Hsm Hser Hi Hnd Hn Hin Hkeep H. simpl in H. rewrite Hh, Hd, Hsm, Hser, Hi in H. cbn [bind] in H.
+  destruct (negb (forallb hashable ignl)); [discriminate H|]. rewrite dump_fields_filter in H.
+  destruct (mapM _ (filter (field_kept E cfg ignl) fields)) as [attrs|] eqn:Hm; [|discriminate H].
+  cbn [bind] in H. destruct (forallb _ (slots_finder V (e_ctab E) c)); [|discriminate H]. injection H as <-.
+  apply mapM_inv in Hm.
+  assert (Hin' : In (n, x) (filter (field_kept E cfg ignl) fields)) by (apply filter_In; auto).
+  destruct (Forall2_In_l _ _ _ _ Hm Hin') as [[k' o] [Ho HR]]. cbn [fst snd] in HR.
+  destruct (jc_dump hfun V E cfg sm ia ign x) as [o'|] eqn:Hx; [|discriminate HR]. cbn [bind] in HR. injection HR as <- <-.
+  assert (Hsds : exists sds, attrs = map skey sds /\ map fst sds = map fst (filter (field_kept E cfg ignl) fields)).
+  { clear - Hm. induction Hm as [|[k x] [k' y] r r' HR _ [sds [-> Hk]]]; [exists []; auto|]. cbn [fst snd] in HR.
+    destruct (jc_dump hfun V E cfg sm ia ign x) as [y'|]; [|discriminate HR]. cbn [bind] in HR. injection HR as <- <-.
+    exists ((k, y') :: sds). split; [reflexivity|]. cbn [map fst filter]. now rewrite Hk. }
+  destruct Hsds as [sds [-> Hkeys]].
+  exists o', (map skey (fset_all [("__jsonclass__", VList [VStr (dump_name d); VList []])] sds)).
+  split; [reflexivity|]. split.
+  - unfold descriptor_dict. change [(jsonclass_key, VList [VStr (dump_name d); VList []])]
+      with (map skey [("__jsonclass__", VList [VStr (dump_name d); VList []])]). now rewrite dupdate_skey.
+  - rewrite dget_skey.
+    assert (Hnds : nodup_str (map fst sds) = true) by (rewrite Hkeys; now apply nodup_str_filter).
+    rewrite flookup_fset_all by exact Hnds.
+    assert (Hino : In (n, o') sds).
+    { apply in_map_iff in Ho as [[k2 y2] [Heq Hin2]]. unfold skey in Heq. cbn [fst snd] in Heq. injection Heq as -> ->. exact Hin2. }
+    now rewrite (flookup_of_In n o' sds Hnds Hino).
+Qed.
+
+(** whatever sits at a traversed position is dumped by the same function, with the same names,
+    ignore list and config, and its dumped form occurs in the result *)
+Theorem traversed_dumped hfun V E cfg sm ia ign v y :
+  reaches E cfg sm ia ign v y ->
+  forall out, jc_dump hfun V E cfg sm ia ign v = Ok out ->
+  exists o, jc_dump hfun V E cfg sm ia ign y = Ok o /\ occurs o out.
+Proof.
+  intros H. induction H as [v | v l x y Hs Hh Hin _ IH | m k x y Hh Hin _ IH
+                            | c fields d ignl n x y Hh Hd Hsm Hser Hi Hnd Hn Hin Hkeep _ IH]; intros out Hd'.
+  - exists out. split; [exact Hd' | constructor].
+  - destruct (items_dumped_recursively hfun V E cfg sm ia ign v l out Hs Hh Hd') as [ys [-> HF]].
+    destruct (Forall2_In_l _ _ _ _ HF Hin) as [o1 [Ho1 Hx]]. destruct (IH o1 Hx) as [o [Ho Hocc]].
+    exists o. split; [exact Ho|]. eapply O_item; eauto.
+  - destruct (dict_values_dumped_recursively hfun V E cfg sm ia ign m out Hh Hd') as [ys [-> HF]].
+    destruct (Forall2_In_l _ _ _ _ HF Hin) as [[k1 o1] [Ho1 [_ Hx]]]. cbn [fst snd] in *. destruct (IH o1 Hx) as [o [Ho Hocc]].
+    exists o. split; [exact Ho|]. eapply O_value; eauto.
+  - destruct (field_emitted hfun V E cfg sm ia ign c fields d ignl n x out Hh Hd Hsm Hser Hi Hnd Hn Hin Hkeep Hd')
+      as [o1 [m [Hx [-> Hget]]]].
+    destruct (IH o1 Hx) as [o [Ho Hocc]]. exists o. split; [exact Ho|].
+    unfold dget in Hget. destruct (In_of_assoc _ _ _ Hget) as [k' Hk']. eapply O_value; eauto.
+Qed.
+
+(** a handler registered for exactly type(y) is used for y wherever dump reaches it, and what it
+    returns is in the result as it is *)
+Theorem handler_every_depth hfun V E cfg sm ia ign v y h out :
+  reaches E cfg sm ia ign v y -> handler_for cfg (type_of y) = Some h ->
+  jc_dump hfun V E cfg sm ia ign v = Ok out ->
+  exists o, hfun h y = Ok o /\ occurs o out.
+Proof.
+  intros Hr Hh Hd. destruct (traversed_dumped hfun V E cfg sm ia ign v y Hr out Hd) as [o [Ho Hocc]].
+  rewrite (handler_verbatim hfun V E cfg sm ia ign y h Hh) in Ho. eauto.
 Qed.
